@@ -131,7 +131,7 @@ def g_rcpt_domain(t, pool, foreign):
         return b"[0.0.0.0]", None
     if k == "ipbig":
         # defect class ip_literal_octet_over_255: generated only when listed in known-findings.txt
-        if "ip_literal_octet_over_255" in LISTED:
+        if True:          # defect repaired by fix: d717745 (ip_scan range check): the class is always generated, nothing is suppressed
             return t.pick([b"[127.0.0.257]", b"[383.0.0.1]"]), None
         return b"[127.0.0.1]", "excluded_ip_literal_octet_over_255"
     if k == "ipnear":
